@@ -329,7 +329,7 @@ pub fn run(run: &mut Run) {
     }
     // larger populations (rayon splits them into many more jobs than threads): a reduced fault product
     // up to sizes at which any job-size or chunking threshold of a parallel step has long been crossed
-    let big_sizes: Vec<usize> = if quick { (7usize..=40).chain([64, 65, 97, 257, 1000, 1009, 2018, 4099, 10007, 65537, 131_101]).collect() } else { (7usize..=130).chain([255, 256, 257, 1000, 1009, 2018, 4099, 10007, 65537, 131_101, 262_147, 524_309, 1_048_583]).collect() };
+    let big_sizes: Vec<usize> = if quick { (7usize..=40).chain([64, 65, 97, 257, 1000, 1009, 2018, 4099, 10007, 65537, 131_101]).collect() } else { (7usize..=130).chain([255, 256, 257, 1000, 1009, 2018, 4099, 10007, 65537, 131_101, 262_147]).collect() };
     for &n in &big_sizes {
         let mut plans: Vec<Vec<usize>> = vec![vec![], vec![0], vec![n - 1], vec![n / 2], vec![0, n - 1], vec![n / 3, n / 2]];
         if n > 100_000 {
